@@ -383,7 +383,8 @@ func c13Forge(w *sim.World, kind string) []byte {
 		if kind == "initial-wrong-scid-crypto" {
 			payload = wireobs.CryptoFrame(0, bytes.Repeat([]byte{0x02, 0x00, 0x00}, 40))
 		}
-		return wireobs.SealInitial(ci.Version, sk, ci.SCID, evilCID, nil, 0, payload, 1200)
+		// (a packet number the genuine server has not used, or duplicate detection drops the forgery)
+		return wireobs.SealInitial(ci.Version, sk, ci.SCID, evilCID, nil, 77, payload, 1200)
 	case "dup-earlier":
 		return firstS2C
 	case "corrupt-earlier":
